@@ -4,6 +4,7 @@
 import GEVerif.Model.Sexp
 import GEVerif.Model.Synth
 import GEVerif.Drive.Val
+import GEVerif.Drive.C07
 
 namespace GEVerif.Drive.C03
 open GEVerif Sexp GEVerif.Drive
@@ -18,6 +19,8 @@ def handle : List Sexp → Option Sexp
       pure (ofBool (decide ((← parseVal v).depth ≤ (← mx.asNat?))))
   | [atom "min_depth", spec] => do
       pure (ofNat (analyse (← parseSpec spec)).minTreeDepth)
+  | atom "map_dsge" :: rest => C07.handle (atom "map_dsge" :: rest)
+  | atom "map_ge" :: rest => C07.handle (atom "map_ge" :: rest)
   | _ => none
 
 end GEVerif.Drive.C03
